@@ -81,6 +81,236 @@ def exc_kind(e):
     return type(e).__name__
 
 
+# ------------------------------------------------------------------ the same message, reached through a history
+def has_dup_tags(tree) -> bool:
+    seen = set()
+    for n in tree:
+        if n[1] in seen:
+            return True
+        seen.add(n[1])
+        if n[0] == "G" and any(has_dup_tags(it) for it in n[2]):
+            return True
+    return False
+
+
+def _canon_dec(v: str) -> bool:
+    return v.isascii() and v.isdigit() and (v == "0" or v[0] != "0") and len(v) < 18
+
+
+class HistoryBuilder:
+    """Builds the message (mtype, tree) through a pseudo-random HISTORY of container operations that ends in exactly
+    that content: tags set / overwritten / deleted and set again, junk tags and junk groups (with several items)
+    added and removed, groups given at once (set_group) or item by item (add_group, with and without index), items
+    given as dicts or as FIXContainer instances, ONE instance attached wherever an equal block occurs again, tags
+    spelled as str / int / FTag, the message type spelled as str or FMsg member and possibly set after
+    construction, a final pickle / deepcopy.  Deterministic in (mtype, tree, seed); `log` records the operations."""
+
+    def __init__(self, mtype, tree, seed, spell="str"):
+        self.mtype, self.tree, self.seed, self.spell = mtype, tree, seed, spell
+        self.log = []
+        self.stats = {}
+
+    def _cnt(self, k):
+        self.stats[k] = self.stats.get(k, 0) + 1
+
+    def tagspell(self, t):
+        from asyncfix import FTag
+        r = self.r.random()
+        if r < 0.5 or not _canon_dec(t):
+            return t
+        if r < 0.75:
+            return int(t)
+        return FTag._value2member_map_.get(t, t)
+
+    def val(self, v):
+        if _canon_dec(v) and self.r.random() < 0.3:
+            return int(v)
+        return v
+
+    def mt_obj(self, mt=None):
+        from asyncfix import FMsg
+        mt = self.mtype if mt is None else mt
+        if self.spell == "fmsg" and mt in FMsg._value2member_map_:
+            return FMsg._value2member_map_[mt]
+        return mt
+
+    def junk_items(self, gtag):
+        tbl = table()
+        ms = tbl.get(gtag) or ["58"]
+        return [{self.tagspell(ms[0]): "j%d" % k} for k in range(self.r.choice([1, 2, 2, 3]))]
+
+    # -- one container's content -------------------------------------------------------------------
+    def fill(self, c, nodes, name):
+        from asyncfix.message import RepeatingTagError
+        r = self.r
+        tbl = table()
+        final = {n[1] for n in nodes}
+        junk = []        # junk tags currently present in c
+
+        def drop(t):
+            del c[self.tagspell(t)]
+            junk.remove(t)
+            self.log.append(f"del {name}[{t}]")
+
+        for i, n in enumerate(nodes):
+            t = n[1]
+            if t in junk:
+                drop(t)
+            # junk first?
+            x = r.random()
+            if x < 0.18:
+                later = [m[1] for m in nodes[i + 1:]]
+                pool = [g for g in sorted(tbl) if g not in final or g in later]
+                if x < 0.1 and pool:
+                    g = r.choice(pool)
+                    if g not in junk and g not in c:
+                        items = self.junk_items(g)
+                        if r.random() < 0.5:
+                            c.set_group(self.tagspell(g), items)
+                        else:
+                            for it in items:
+                                c.add_group(self.tagspell(g), it)
+                        junk.append(g)
+                        self._cnt("junk_group_%d_items" % len(items))
+                        self.log.append(f"junk group {name}[{g}] x{len(items)}")
+                else:
+                    g = r.choice(["58", "1", "9999", "5001"] + later[:2])
+                    if g not in junk and g not in c and g not in tbl and g not in HEADER_TAGS:
+                        c.set(self.tagspell(g), "junk")
+                        junk.append(g)
+                        self._cnt("junk_tag")
+                        self.log.append(f"junk tag {name}[{g}]")
+            if t in junk:
+                drop(t)
+            if n[0] == "L":
+                v = n[2]
+                y = r.random()
+                if y < 0.45:
+                    c.set(self.tagspell(t), self.val(v))
+                    self.log.append(f"set {name}[{t}]")
+                elif y < 0.6:
+                    c[self.tagspell(t)] = self.val(v)
+                    self.log.append(f"setitem {name}[{t}]")
+                elif y < 0.8:
+                    c.set(self.tagspell(t), v + "~old")
+                    c.set(self.tagspell(t), self.val(v), replace=True)
+                    self._cnt("overwrite")
+                    self.log.append(f"set+replace {name}[{t}]")
+                else:
+                    c.set(self.tagspell(t), "old")
+                    del c[self.tagspell(t)]
+                    c.set(self.tagspell(t), self.val(v))
+                    self._cnt("del_and_set_again")
+                    self.log.append(f"set,del,set {name}[{t}]")
+            elif n[0] == "E":
+                c.set(self.tagspell(t), RepeatingTagError)
+                self.log.append(f"set-err {name}[{t}]")
+            else:
+                if r.random() < 0.15:
+                    # a first version of the group (several items) that is thrown away again
+                    items = self.junk_items(t)
+                    c.set_group(self.tagspell(t), items)
+                    del c[self.tagspell(t)]
+                    self._cnt("group_rebuilt_after_del_%d_items" % len(items))
+                    self.log.append(f"group {name}[{t}] x{len(items)} set and deleted")
+                items = [self.item(it, f"{name}/{t}:{k}") for k, it in enumerate(n[2])]
+                y = r.random()
+                if y < 0.4:
+                    c.set_group(self.tagspell(t), items)
+                    self.log.append(f"set_group {name}[{t}] x{len(items)}")
+                elif y < 0.7:
+                    for it in items:
+                        c.add_group(self.tagspell(t), it)
+                    self.log.append(f"add_group* {name}[{t}] x{len(items)}")
+                else:
+                    order = list(range(len(items)))
+                    r.shuffle(order)
+                    done = []
+                    for p in order:
+                        idx = sum(1 for q in done if q < p)
+                        if idx == len(done) and r.random() < 0.5:
+                            c.add_group(self.tagspell(t), items[p])
+                        else:
+                            c.add_group(self.tagspell(t), items[p], idx)
+                        done.append(p)
+                    self._cnt("add_group_with_index")
+                    self.log.append(f"add_group(index) {name}[{t}] order {order}")
+            # remove some junk now
+            for g in list(junk):
+                if r.random() < 0.4:
+                    drop(g)
+        for g in list(junk):
+            drop(g)
+
+    def as_dict(self, nodes, name):
+        from asyncfix.message import RepeatingTagError
+        d = {}
+        for n in nodes:
+            k = self.tagspell(n[1])
+            if n[0] == "L":
+                d[k] = self.val(n[2])
+            elif n[0] == "E":
+                d[k] = RepeatingTagError
+            else:
+                d[k] = [self.item(it, f"{name}/{n[1]}:{j}") for j, it in enumerate(n[2])]
+        return d
+
+    def item(self, nodes, name):
+        """an item for add_group / set_group: a dict, or a FIXContainer (new, or THE instance already built for an
+        equal block)"""
+        from asyncfix.message import FIXContainer
+        r = self.r
+        key = tok_tree(nodes)
+        if key in self.pool and r.random() < 0.7:
+            self._cnt("shared_instance")
+            self.log.append(f"{name}: same object as {self.pool[key][1]}")
+            return self.pool[key][0]
+        y = r.random()
+        if y < 0.3:
+            self._cnt("item_as_dict")
+            return self.as_dict(nodes, name)
+        if y < 0.5:
+            c = FIXContainer(self.as_dict(nodes, name))
+            self._cnt("item_container_from_dict")
+        else:
+            c = FIXContainer()
+            self.fill(c, nodes, name)
+            self._cnt("item_container_by_ops")
+        self.pool[key] = (c, name)
+        return c
+
+    def build(self):
+        import copy
+        import pickle
+
+        from asyncfix.message import FIXMessage
+        self.r = r = random.Random(self.seed)
+        self.pool = {}
+        self.log = []
+        k = r.choice([0, 0, 1, 2, len(self.tree)]) if self.tree else 0
+        y = r.random()
+        if y < 0.2:
+            m = FIXMessage(self.mt_obj(r.choice(["0", "D", "XX", self.mtype + " "])),
+                           self.as_dict(self.tree[:k], "m") if k else None)
+            m.msg_type = self.mt_obj()
+            self._cnt("msg_type_set_later")
+            self.log.append("msg_type assigned after construction")
+        else:
+            m = FIXMessage(self.mt_obj(), self.as_dict(self.tree[:k], "m") if k else None)
+        self.log.append(f"FIXMessage(<{self.spell}>, dict of first {k})")
+        self.fill(m, self.tree[k:], "m")
+        y = r.random()
+        if y < 0.08:
+            m = pickle.loads(pickle.dumps(m))
+            self._cnt("pickled")
+            self.log.append("pickle round trip")
+        elif y < 0.16:
+            m = copy.deepcopy(m)
+            self._cnt("deepcopied")
+            self.log.append("deepcopy")
+        return m
+
+
 # ------------------------------------------------------------------ implementation wrappers
 class Impl:
     def __init__(self):
@@ -97,8 +327,9 @@ class Impl:
             return f"none {n}"
         return "msg %d %s %s %s" % (n, C.cp(enc), C.cp(str(m.msg_type)), tok_tree(tree_of(m)))
 
-    def encode(self, mtype, tree, sender, target, next_out, raw, now):
-        """returns (reply string, frame str or None)"""
+    def encode(self, mtype, tree, sender, target, next_out, raw, now, builder=None):
+        """returns (reply string, frame str or None); builder: callable returning the message object
+        (e.g. the same content reached through a history of container operations)"""
         from asyncfix.session import FIXSession
 
         s = FIXSession(1, target, sender)
@@ -106,7 +337,8 @@ class Impl:
         s.next_num_in = 1
         self.codec.current_datetime = lambda: now  # instance attribute shadows the staticmethod
         try:
-            msg = build_container(tree, mtype=mtype)
+            msg = builder() if builder is not None else build_container(tree, mtype=mtype)
+            self.last_msg = msg
             f = self.codec.encode(msg, s, raw_seq_num=raw)
         except Exception as e:  # noqa
             return "err %s %s" % (exc_kind(e), s.next_num_out), None
@@ -254,6 +486,40 @@ def wf_msg(mtype: str, tree, keep_seq: bool) -> bool:
 VALUE_ALPHABET = "ABCxyz019 =.|-+_/:FIX8" + "\xe9\xff\x7f\x80"
 FRAMING_LIKE = ["10=", "9=", "8=FIX.", "8=FIX.4.4", "35=", "=", "10=000", "8=FIX.4.4\u00019=5".replace("\u0001", "|")]
 MTYPES = ["D", "8", "0", "A", "AE", "U1", "j", "XYZ", "5", "F"]
+CUSTOM_MTYPES = ["U1", "U9", "ASD", "A B", " ", "  ", "=", "D=", "35=D", "\xe9", "10", "8=FIX.4.4", "d", "ae", "00", "08",
+                 "D|", "UNKNOWN", "None", "XYZXYZXYZXYZXYZXYZXYZ", "\t", "\xa0"]
+PADS = [(" ", ""), ("", " "), (" ", " "), ("", "\t"), ("\t", ""), ("", "\n"), ("", "\xa0"), ("  ", ""), ("", "\r"), ("\x0b", ""),
+        ("", "\x1c"), ("0", ""), ("", "\x00")]
+
+
+def mtype_class(mt: str) -> str:
+    std = set(tag_families()["mtypes"])
+    if mt in std:
+        return "standard"
+    if mt.strip() in std or mt.strip("\x00 \t\r\n\x0b\x0c\x1c\x1d\x1e\x1f\xa0\x85") in std:
+        return "padded-standard"
+    if mt.lower() in {x.lower() for x in std} or mt.lstrip("0") in std:
+        return "respelled-standard"
+    return "custom"
+
+
+def gen_mtype(rng: random.Random) -> str:
+    """MsgType text: the small fixed list, any type the repository's FMsg declares, a standard type padded with
+    blanks / control characters or respelled (case, leading zero), and custom types"""
+    fam = tag_families()
+    r = rng.random()
+    if r < 0.45:
+        return rng.choice(MTYPES)
+    if r < 0.65:
+        return rng.choice(fam["mtypes"])
+    if r < 0.85:
+        v = rng.choice(fam["mtypes"] if rng.random() < 0.5 else MTYPES)
+        x = rng.random()
+        if x < 0.75:
+            a, b = rng.choice(PADS)
+            return a + v + b
+        return v.swapcase() if x < 0.9 and v.swapcase() != v else v + v
+    return rng.choice(CUSTOM_MTYPES)
 
 _FAM = None
 
@@ -358,7 +624,7 @@ def gen_wf_msg(rng: random.Random, group=None, keep_seq=False):
     fam = tag_families()
     any_tags = [t for t in fam["all"] if t not in tbl and t not in HEADER_TAGS]
     for _ in range(50):
-        mtype = rng.choice(MTYPES) if rng.random() < 0.8 else rng.choice(fam["mtypes"])
+        mtype = gen_mtype(rng)
         tree, used = [], set()
         n_plain = rng.randint(0, 6)
         groups = [group] if group else []
@@ -409,8 +675,34 @@ def gen_wf_msg(rng: random.Random, group=None, keep_seq=False):
                 tree.insert(at, ("L", t, v))
                 at = at + 1 if adjacent else rng.randint(at + 1, len(tree))
         if wf_msg(mtype, tree, keep_seq):
+            if rng.random() < 0.3:
+                t2 = dup_blocks(rng, tree)
+                if wf_msg(mtype, t2, keep_seq):
+                    tree = t2
             return mtype, tree
     return "D", [("L", "55", "X")]
+
+
+def dup_blocks(rng, tree):
+    """equal blocks at several places: a group item repeated in its group, or a second item that differs only in
+    its first value (so nested blocks are equal although the outer items are not) - what an application gets when
+    it attaches one prebuilt block to several items"""
+    def walk(nodes):
+        out = []
+        for n in nodes:
+            if n[0] != "G":
+                out.append(n)
+                continue
+            items = [walk(it) for it in n[2]]
+            if items and rng.random() < 0.6:
+                j = rng.randrange(len(items))
+                cp_ = list(items[j])
+                if rng.random() < 0.6 and cp_ and cp_[0][0] == "L":
+                    cp_[0] = ("L", cp_[0][1], cp_[0][2] + rng.choice(["2", "-b", ""]))
+                items.insert(rng.choice([j + 1, len(items)]), cp_)
+            out.append(("G", n[1], items))
+        return out
+    return walk(tree)
 
 
 def flatten(tree):
@@ -511,3 +803,139 @@ def split_at(stream: bytes, cuts):
             out.append(stream[prev:c])
             prev = c
     return out
+
+
+# ------------------------------------------------------------------ round 4: value classes, sizes, strict framing
+# Unicode value classes (dimension V).  Every text is SOH-free.  "fits" says whether the text is representable in
+# latin-1 AS GIVEN (code points < 256) - that alone decides whether a frame may carry it; what a normaliser,
+# case-folder or a different codec would turn it into is irrelevant to the wire.
+UNICODE_CLASSES = {
+    "latin1-precomposed": ["caf\xe9", "Z\xfcrich", "\xc5ngstr\xf6m", "\xb5s", "Stra\xdfe", "\xff\xfe"],
+    # base letter + combining mark whose COMPOSED form is a latin-1 character (the text itself is not latin-1)
+    "combining->latin1": ["cafe\u0301", "Zu\u0308rich", "A\u030a", "n\u0303", "c\u0327a", "e\u0301e\u0300"],
+    # combining sequences without a latin-1 composed form, a lone mark, two marks
+    "combining-other": ["x\u0301", "e\u0304", "\u0301", "a\u0328", "q\u0307\u0323"],
+    # singletons: canonically equivalent to an ASCII / latin-1 character
+    "singleton-decomposable": ["300\u212a", "5\u212b", "a\u037e", "\u0387", "\u1fef", "\u1ffd", "50\u2126"],
+    # compatibility characters (NFKC changes them; NFC does not)
+    "compatibility": ["\ufb01n", "\uff11\uff12", "\u2460", "x\u00b2", "\u2122", "\u33a1", "\u00bd"],
+    # case mapping specials (upper/lower/casefold change length or leave latin-1)
+    "case-special": ["\u0130stanbul", "\u0131", "\u017f", "\u1e9e", "\u01c5", "\u03a3\u03c2", "\xdf", "\xff"],
+    "surrogate": ["\ud800", "a\udfffb", "\ud83d\ude00"],
+    "nul-control": ["\x00", "a\x00b", "\x1c\x1d", "\x85", "\x7f", "\r\n", "\t"],
+    # utf-8 and latin-1 encodings differ in length (or latin-1 has none)
+    "width-differs": ["\xe9", "\xa0", "\xad", "\u20ac", "\u0100", "\U0001f600", "\u4e2d\u6587", "\u043f\u0440"],
+    "format-bidi": ["\u200b", "a\u200db", "\u2028", "\ufeff", "\u202eabc"],
+}
+
+
+def flatten_values(tree, top=True):
+    """(tag, value) of every plain entry the encoder puts on the wire (top-level 34/52/49/56 are replaced by it)"""
+    out = []
+    for n in tree:
+        if n[0] == "L":
+            if not (top and n[1] in SKIP_TAGS):
+                out.append((n[1], n[2]))
+        elif n[0] == "G":
+            for it in n[2]:
+                out += flatten_values(it, top=False)
+    return out
+
+
+def fits_latin1(s: str) -> bool:
+    return all(ord(ch) < 256 for ch in s)
+
+
+def gen_special_value(rng, surrogates=True):
+    """(class name, text) from UNICODE_CLASSES, optionally embedded in ASCII"""
+    cls = rng.choice(sorted(k for k in UNICODE_CLASSES if surrogates or k != "surrogate"))
+    t = rng.choice(UNICODE_CLASSES[cls])
+    r = rng.random()
+    if r < 0.3:
+        t = "ab" + t
+    elif r < 0.5:
+        t = t + "yz"
+    return cls, t
+
+
+def ref_parse_strict(raw: bytes):
+    """`ref_parse` plus what a peer that scans for fields relies on: BeginString(8), BodyLength(9), MsgType(35)
+    occur exactly once and no CheckSum(10) field occurs before the trailer - i.e. the frame ends at the FIRST
+    `SOH 10=` a parser meets."""
+    fields, why = ref_parse(raw)
+    if fields is None:
+        return None, why
+    tags = [t for t, _ in fields]
+    for t in ("8", "9", "35"):
+        if tags.count(t) != 1:
+            return None, "tag %s occurs %d times" % (t, tags.count(t))
+    if "10" in tags:
+        return None, "CheckSum(10) field inside the body"
+    for t in tags:
+        if not t or not all("0" <= ch <= "9" for ch in t):
+            return None, "field tag is not a decimal number"
+    return fields, None
+
+
+def split_stream(stream: bytes, begin=b"FIX.4.4"):
+    """what the peer does with the transport's byte stream: cut it into frames by BodyLength, check every frame
+    with `ref_parse_strict`.  Returns (frames, None) or (frames so far, reason)."""
+    frames, pos = [], 0
+    head = b"8=" + begin + b"\x019="
+    while pos < len(stream):
+        if not stream.startswith(head, pos):
+            return frames, "offset %d: no BeginString/BodyLength" % pos
+        p = pos + len(head)
+        q = stream.find(b"\x01", p)
+        if q < 0 or not stream[p:q].isdigit():
+            return frames, "offset %d: bad BodyLength" % pos
+        end = q + 1 + int(stream[p:q]) + 7
+        if end > len(stream):
+            return frames, "offset %d: frame runs past the end of the stream" % pos
+        fr = stream[pos:end]
+        fields, why = ref_parse_strict(fr)
+        if fields is None:
+            return frames, "offset %d: %s" % (pos, why)
+        frames.append(fr)
+        pos = end
+    return frames, None
+
+
+# frame sizes (dimension S): 4 KiB, the 64 KiB stream high-water mark +-1, twice that +-1, 1 MiB
+FRAME_SIZES = [4096, 65535, 65536, 65537, 70000, 131071, 131073, 1 << 20]
+
+
+def sized_case(spec):
+    """deterministic big message from a small JSON-able spec (so that a replay file stays small):
+      {"shape": "value", "frame_len": n, "mtype": "B", "tag": "58", "fill": "x", "tail": "", "seq": 7}
+          one value padded so that the WHOLE frame (computed by `ref_frame`, not by the codec) has n bytes
+      {"shape": "items", "group": "453", "n": 3000}     one repeating group with n one-member items
+      {"shape": "fields", "n": 2000}                     n distinct plain (user-defined) tags
+    returns the case tuple of gen_case: (mtype, tree, sender, target, next_out, raw, now)"""
+    now = spec.get("now", "20240101-00:00:00.000")
+    seq = spec.get("seq", 7)
+    sender, target = spec.get("sender", "SND"), spec.get("target", "TGT")
+    mtype = spec.get("mtype", "B")
+    shape = spec["shape"]
+    if shape == "value":
+        tag, fill, tail = spec.get("tag", "58"), spec.get("fill", "x"), spec.get("tail", "")
+        pre = [("L", "148", "headline")]
+
+        def flen(k):
+            fs = ["35=" + mtype, "49=" + sender, "56=" + target, "34=%d" % seq, "52=" + now, "148=headline",
+                  tag + "=" + fill * k + (tail if fits_latin1(tail) else "?" * len(tail))]
+            return len(ref_frame(fs))
+        k = max(0, spec["frame_len"] - flen(0))
+        for _ in range(4):   # BodyLength digits may change
+            k += spec["frame_len"] - flen(k)
+            k = max(0, k)
+        tree = pre + [("L", tag, fill * k + tail)]
+    elif shape == "items":
+        g = spec.get("group", "453")
+        first = table()[g][0]
+        tree = [("L", "55", "X"), ("G", g, [[("L", first, "P%d" % i)] for i in range(spec["n"])])]
+    elif shape == "fields":
+        tree = [("L", str(20000 + i), "v%d" % i) for i in range(spec["n"])]
+    else:
+        raise ValueError(spec)
+    return (mtype, tree, sender, target, seq, False, now)
